@@ -108,6 +108,15 @@ static void one_run(const std::string &prof, uint64_t seed, const JV *replay, Ag
     return;
   }
   alarm(120);
+  if (prof == "C20") {
+    // differential: reference execution first (same plan, whole-message always-writable transport)
+    RunCfg rc = cfg; rc.knobs["reference"] = 1;
+    Run ref(rc);
+    ref.plan = plan;
+    profile_attach(ref);
+    ref.execute();
+    if (getenv("SIM_DUMP_TX")) for (auto &t : W.txs) fprintf(stderr, "REFTX t=%lld fd=%d srv=%d %s %s type=%d attempt=%d beh=%s off=%zu len=%zu\n", (long long)t.t, t.fd, t.server, t.tcp ? "tcp" : "udp", t.qname_lc.c_str(), t.msg.qd.empty() ? -1 : t.msg.qd[0].type, t.attempt, beh_name[t.behaviour], t.stream_off, t.wire.size());
+  }
   Run run(cfg);
   run.plan = plan;
   profile_attach(run);
@@ -138,6 +147,11 @@ static void one_run(const std::string &prof, uint64_t seed, const JV *replay, Ag
   }
   j.end_obj();
   printf("RUN %s\n", j.s.c_str());
+  if (getenv("SIM_DUMP_TX")) for (auto &t : W.txs) fprintf(stderr, "TX t=%lld fd=%d srv=%d %s %s type=%d attempt=%d beh=%s off=%zu len=%zu\n", (long long)t.t, t.fd, t.server, t.tcp ? "tcp" : "udp", t.qname_lc.c_str(), t.msg.qd.empty() ? -1 : t.msg.qd[0].type, t.attempt, beh_name[t.behaviour], t.stream_off, t.wire.size());
+  if (getenv("SIM_DUMP_CALLS")) {
+    FILE *f = fopen(getenv("SIM_DUMP_CALLS"), "w");
+    if (f) { for (auto &c : W.calls) fprintf(f, "%u t=%lld tid=%d call=%d fd=%d res=%ld err=%d a=%ld b=%ld\n", c.seq, (long long)c.t, c.tid, c.call, c.fd, c.res, c.err, c.a, c.b); fclose(f); }
+  }
   if (agg.samples.size() < 3 && nt) {
     JW s; s.obj().kv("seed", seed).kv("steps", (int64_t)plan.size()).kv("requests", (int64_t)run.reqs.size()).kv("transmissions", (int64_t)W.txs.size());
     s.key("plan_head").arr();
